@@ -10,6 +10,7 @@ import (
 	"encoding/json"
 	"fmt"
 	"net/http"
+	"sync"
 
 	"trpc.group/trpc-go/trpc-mcp-go/internal/sseutil"
 )
@@ -27,6 +28,10 @@ type sseNotificationSender struct {
 
 	// SSE utility writer
 	sseWriter *sseutil.Writer
+
+	// writeMu serialises events: a handler may emit notifications from several goroutines, and an
+	// http.ResponseWriter is not safe for concurrent use.
+	writeMu sync.Mutex
 }
 
 // newSSENotificationSender creates an SSE notification sender
@@ -93,6 +98,8 @@ func (s *sseNotificationSender) SendCustomNotification(method string, params map
 	}
 
 	// Send SSE event using sseutil.Writer instead of direct fmt.Fprintf
+	s.writeMu.Lock()
+	defer s.writeMu.Unlock()
 	eventID := s.sseWriter.GenerateEventID()
 	return s.sseWriter.WriteEvent(s.writer, sseutil.Event{
 		ID:   eventID,
@@ -112,6 +119,8 @@ func (s *sseNotificationSender) SendNotification(notification *Notification) err
 	}
 
 	// Send SSE event using sseutil.Writer instead of direct fmt.Fprintf
+	s.writeMu.Lock()
+	defer s.writeMu.Unlock()
 	eventID := s.sseWriter.GenerateEventID()
 	return s.sseWriter.WriteEvent(s.writer, sseutil.Event{
 		ID:   eventID,
